@@ -40,8 +40,10 @@ def r1(ctx):
                 'draws per character: %d (or not on every path): the random stream shifts with the text' % len(draws), draws[0].span if draws else None)
     if draws:
         up = core(sym(inner, draws[0].args[0]))
-        ctx.require(up[0] == 'upvar' and rngs and resolve_upvars(ctx, inner, up)[0] == 'var' and
-                    nosite(resolve_upvars(ctx, inner, up)) == nosite(core(sym(outer, rngs[0].dest))), inner,
+        cap = resolve_upvars(ctx, inner, up) if up[0] == 'upvar' else None
+        seeded = nosite(core(init_value(outer, sym(outer, rngs[0].dest)))) if rngs else None
+        ctx.require(cap is not None and cap[0] == 'var' and rngs and
+                    (nosite(cap) == nosite(core(sym(outer, rngs[0].dest))) or nosite(core(init_value(outer, cap))) == seeded), inner,
                     'draw-from-seeded-rng', 'the draw uses the captured seeded rng', None)
         ctx.require('f64' in inner.local_ty(draws[0].dest.local), inner, 'draw-type', 'the draw is a uniform f64 in [0,1)', None)
 
